@@ -5,11 +5,12 @@
 set -u
 id="$1"; k="$2"; shift 2
 src="${SEED_SRC:-/tmp/seed-out/$id}"
-wt="/tmp/wt-seed-$id-$k"
-log="/root/scratch/seedlogs/$id-$k.log"; mkdir -p /root/scratch/seedlogs
+tag="${SEED_TAG:-$id}"
+wt="/tmp/wt-seed-$tag-$k"
+log="/root/scratch/seedlogs/$tag-$k.log"; mkdir -p /root/scratch/seedlogs
 git -C /repo worktree remove --force "$wt" >/dev/null 2>&1
-git -C /repo worktree add --detach "$wt" HEAD >/dev/null 2>&1 || { echo "$id-$k worktree failed"; exit 2; }
-res="$id-$k:"
+git -C /repo worktree add --detach "$wt" HEAD >/dev/null 2>&1 || { echo "$tag-$k worktree failed"; exit 2; }
+res="$tag-$k:"
 ( cd "$wt" && PYTHONPATH="$wt/src" PYTHONWARNINGS=ignore timeout 600 /venv/bin/python "$src/demo_$k.py" >"$log.clean" 2>&1 ); res="$res demo_clean=$?"
 if ! git -C "$wt" apply "$src/patch_$k.diff" 2>>"$log"; then
   git -C "$wt" apply --3way "$src/patch_$k.diff" >>"$log" 2>&1 || { echo "$res APPLY-FAILED"; git -C /repo worktree remove --force "$wt"; exit 2; }
@@ -18,10 +19,10 @@ fi
 t=$(cd "$wt" && PYTHONPATH="$wt/src" timeout 1500 /venv/bin/python -m pytest -q -p no:cacheprovider --no-cov -n 4 2>&1 | tail -1)
 res="$res tests=[$t]"
 for c in "$@"; do
-  out=$(cd /verif && VERIF_REPO_SRC="$wt/src" VERIF_EVIDENCE_DIR=/tmp/mut-evidence-$id-$k timeout ${MUT_TIMEOUT:-2400} ./check "$c" --no-confirm --jobs ${MUT_JOBS:-8} 2>&1)
+  out=$(cd /verif && VERIF_REPO_SRC="$wt/src" VERIF_EVIDENCE_DIR=/tmp/mut-evidence-$tag-$k timeout ${MUT_TIMEOUT:-2400} ./check "$c" --no-confirm --jobs ${MUT_JOBS:-8} 2>&1)
   code=$?
   res="$res $c=$code"
   { echo "== $c exit=$code"; echo "$out" | grep -E "^VIOLATION|^KNOWN-FINDING|^HARNESS|^  ident|^\[C" | cut -c1-300 | head -14; } >> "$log"
 done
 echo "$res"
-git -C /repo worktree remove --force "$wt"; rm -rf /tmp/mut-evidence-$id-$k
+git -C /repo worktree remove --force "$wt"; rm -rf /tmp/mut-evidence-$tag-$k
